@@ -1,7 +1,8 @@
 SPECIFICATION Spec
 CONSTANTS
   Configs <- Vod0Quick
+  Fix = FALSE
   EmitGen = FALSE
   Seed = 0
 INVARIANTS InvLookupNr InvLookupTime InvTimelineShape InvTimelineEdge InvListedServed
-PROPERTIES ImplMonotone ImplForward
+PROPERTIES ImplMonotone ImplForward ImplPtIdentifiesEdge
